@@ -56,7 +56,13 @@ def build(spec, order: random.Random | None):
     if t == "dict":
         return {build(k, order): build(v, order) for k, v in spec[1]}
     if t in ("set", "fset"):
-        elems = [build(x, order) for x in spec[1]]
+        elems = []
+        for x in spec[1]:
+            e = build(x, order)
+            # equal elements (1, True, 1.0; 0.0, -0.0) collapse in a set and the first inserted one
+            # survives: keep the first *listed* one so that every insertion order builds the same value
+            if not any(e == u for u in elems):
+                elems.append(e)
         if order is not None:
             order.shuffle(elems)
         s = set()
